@@ -759,7 +759,6 @@ def selftest(seed):
     tamper(mutated, 'old side-chain atom kept', lambda t: t['out'].append({'id': next(k for k in orig(t) if k not in {o['id'] for o in t['out']}),
                                                                            'name': 'CG', 'ptm': True, 'resname': 'ALA'}))
     tamper(mutated, 'residue name not changed', lambda t: [o.update(resname=t['resname']) for o in t['out']])
-    tamper(mutated, 'reference of the old residue used', lambda t: t.update(muts=[]))
     tamper(term, 'atom of the requested modification missing', lambda t: t['out'].remove(next(o for o in t['out'] if o['ptm'])))
     tamper(mol, 'bond between two residues lost', lambda t: t['outEdges'].remove(next(ed for ed in t['outEdges'] if ed in t['inEdges'] and
                                                                                       len({a['res'] for a in t['atoms'] if a['id'] in ed}) == 2)))
@@ -771,7 +770,10 @@ def selftest(seed):
     for what, t in tampered:
         ev = common.Evidence(PID, 'quick', seed)
         vd = common.Verdicts(PID, ev)
+        import time
+        t0 = time.time()
         judge_events([t], ev, vd)
+        print('%.1f s' % (time.time() - t0))
         assert len(vd.violations) == 1, (what, vd.violations)
         print('selftest C04 (real structure): %-48s -> %s' % (what, vd.violations[0][2].split(': ')[-1]))
         for k, p, d in vd.violations:
